@@ -43,6 +43,14 @@ def main():
             print("rust build failed", ob[-2000:])
             raise SystemExit(2)
 
+    recheck = os.environ.get("SEED_EVAL_RECHECK") and (dst / "meta.json").exists()
+    if recheck:
+        # the change was confirmed in an earlier run (recorded in meta.json); only run (more) checks against it
+        old = json.loads((dst / "meta.json").read_text())
+        if not old.get("confirmed"):
+            print("not confirmed earlier")
+            return 2
+        return run_checks(seed, dst, old, checks, dict(old.get("checks", {})), rust=False, wt=wt)
     sh("git checkout -- . && git clean -fdq -e '*.so'", cwd=wt)
     build_ext()
     rc0, o0 = sh(f"/venv/bin/python {out}/demo.py", cwd=wt, env=env, timeout=1800)
@@ -67,8 +75,11 @@ def main():
             shutil.copy(out / f, dst / f)
     notes = (out / "notes.md").read_text() if (out / "notes.md").exists() else ""
     meta["needs_to_manifest"] = ""
+    return run_checks(seed, dst, meta, checks, {}, rust, wt)
+
+
+def run_checks(seed, dst, meta, checks, results, rust, wt):
     # 2. run the checks against the change applied to /repo
-    results = {}
     if meta["confirmed"]:
         rc, o = sh(f"git -C /repo apply {dst}/patch.diff")
         if rc != 0:
@@ -87,6 +98,7 @@ def main():
                 mach = [l for l in lines if l.startswith("MACHINERY-FAILURE")]
                 results[c] = {"exit": rc, "violations": len(viol), "first": what[:3], "machinery": mach[:1],
                               "wall_s": round(time.time() - t0)}
+                meta["ran"] = [r for r in meta["ran"] if f"./check {c} " not in r]
                 meta["ran"].append(f"git -C /repo apply seeded/{seed}/patch.diff && ./check {c} --tier quick  (exit {rc}, "
                                    f"{len(viol)} VIOLATION lines)")
         finally:
